@@ -211,8 +211,8 @@ def char_sites(ctx, rep):
                 k = (s['file'], s['line'], s['kind'], s['detail'], s['func'])
                 if k in seen: continue          # headers are parsed once per unit
                 seen.add(k); sites.append(s)
-        rep.instances(nunits, 6, 'units with code parsed')
-        rep.instances(len(sites), 10, 'plain-char promotion sites')
+        rep.instances(nunits, 4, 'units with code parsed')
+        rep.instances(len(sites), 5, 'plain-char promotion sites')
         counts = {}
         for s in sorted(sites, key=lambda s: (s['file'], s['line'])):
             counts[s['kind']] = counts.get(s['kind'], 0) + 1
@@ -246,4 +246,55 @@ def byte_order_tables(ctx, rep):
                 bad = [i for i in range(len(tk) - 1) if not tk[i] < tk[i + 1]]
             rep.check(not bad, '%s strictly increasing under the %s byte order' % (L.sym, name), L.sym, '%s word list (%s order)' % (L.sym, name),
                       detail=bad[:5], sample={'language': L.sym, 'order': name}, key='CHAR-2|%s|%s' % (L.sym, name))
-    rep.instances(n, 2, 'sorted raw-byte languages')
+    rep.instances(n, 1, 'sorted raw-byte languages')
+
+
+def ir_signedness_diff(ctx, rep):
+    """CHAR-3: the two compilations (-fsigned-char / -funsigned-char) may differ only in the kind of integer extension applied to i8 values"""
+    from .ir import base_name
+    pairs = [('NsS', 'NuS')] if ctx.tier == 'quick' else [('NsS', 'NuS'), ('DsS', 'DuS')]
+    rep.rule('CHAR-3', 'differential rule over the compiler output: the library is lowered twice, with -fsigned-char and with -funsigned-char; every function '
+             'must have the same instruction sequence, constants, callees, offsets and types in both, except that a sign extension of an 8-bit value may '
+             'become a zero extension (exactly the promotion sites classified by CHAR-1); all global initialisers (tables, constants) must be identical. '
+             'A constant, comparison predicate, shift kind or table entry that depends on CHAR_MIN/CHAR_MAX or on plain-char bit-fields shows up here')
+    def sig(P, f, i):
+        op = i.op
+        if op in ('sext', 'zext') and i.d.get('src_bits') == 8: op = 'ext8'
+        ops = []
+        for v in i.ops:
+            k = v['k']
+            if k == 'c': ops.append(('c', v['bits'], v['v']))
+            elif k == 'g': ops.append(('g', v['name'] if not v['name'].startswith('.str') else '.str', v.get('off')))
+            elif k == 'f': ops.append(('f', v['name']))
+            else: ops.append(k)
+        extra = (i.d.get('pred'), i.d.get('callee'), i.d.get('const_off'), i.d.get('alloc_size'), i.d.get('ty'), i.d.get('size'))
+        return (op, tuple(ops), extra)
+    for a, b in pairs:
+        Pa = ctx.prog(a); Pb = ctx.prog(b)
+        rep.configs.append(a + '~' + b)
+        names = sorted(set(Pa.defined) | set(Pb.defined))
+        n = 0
+        for nm in names:
+            fa = Pa.defined.get(nm); fb = Pb.defined.get(nm)
+            if fa is None or fb is None:
+                rep.fail('function %s exists in both compilations' % nm, nm, nm); continue
+            n += 1
+            sa = [(sig(Pa, fa, i), i.loc) for i in fa.all_insts() if not Pa.is_dbg(i)]
+            sb = [(sig(Pb, fb, i), i.loc) for i in fb.all_insts() if not Pb.is_dbg(i)]
+            diff = None
+            if len(sa) != len(sb): diff = ('different instruction count', sa[0][1] if sa else '?')
+            else:
+                for (x, lx), (y, ly) in zip(sa, sb):
+                    if x != y: diff = ('%s  vs  %s' % (str(x)[:120], str(y)[:120]), lx); break
+            rep.check(diff is None, '%s is identical under signed and unsigned char (modulo 8-bit extension kind)' % base_name(nm), diff[1] if diff else nm,
+                      '%s differs between -fsigned-char and -funsigned-char' % base_name(nm), detail=diff[0] if diff else None,
+                      sample={'function': nm, 'instructions': len(sa)} if n <= 2 else None, key='CHAR-3|%s' % base_name(nm))
+        rep.instances(n, 30, 'functions compared')
+        ga = {g['name']: json.dumps(g.get('init'), sort_keys=True) for g in Pa.globals.values() if not g['name'].startswith('.str')}
+        gb = {g['name']: json.dumps(g.get('init'), sort_keys=True) for g in Pb.globals.values() if not g['name'].startswith('.str')}
+        sa_ = sorted(json.dumps(g.get('init'), sort_keys=True) for g in Pa.globals.values() if g['name'].startswith('.str'))
+        sb_ = sorted(json.dumps(g.get('init'), sort_keys=True) for g in Pb.globals.values() if g['name'].startswith('.str'))
+        bad = sorted(k for k in set(ga) | set(gb) if ga.get(k) != gb.get(k))
+        # language tables refer to string literals by generated names: compare their resolved contents instead
+        bad = [k for k in bad if not (Pa.globals.get(k, {}).get('ty') == '%struct.polyseed_lang')]
+        rep.check(not bad and sa_ == sb_, 'global initialisers and string literals identical in both compilations', str(bad[:3]), 'globals %s differ' % bad[:3], key='CHAR-3|globals')
